@@ -22,6 +22,7 @@ func init() {
 }
 
 func runC14(c *Ctx) {
+	ruleLookup(c, "LOOKUP")
 	ruleTeardown(c, "TEARDOWN")
 	ruleSoleDeleter(c)
 	ruleArm(c)
@@ -300,6 +301,75 @@ func isAndWithTimeout(v ssa.Value) bool {
 	return hasT
 }
 
+// C14.LOOKUP (also C04): the table lookup is exact — it returns the entry stored under the key whenever there is one. Teardown
+// deletes by key, so the design rests on "at most one live association per key": a lookup that hides an entry (because it
+// looks expired, say) makes the datagram code create a second association under the same key, and the first one's teardown
+// then deletes and closes the wrong entry.
+func ruleLookup(c *Ctx, rule string) {
+	p := c.P
+	m := getUDPModel(c, rule)
+	if m == nil || m.get == nil {
+		return
+	}
+	g := m.get
+	var lookups []*ssa.Lookup
+	for _, b := range g.Blocks {
+		for _, ins := range b.Instrs {
+			if lk, ok := ins.(*ssa.Lookup); ok && p.AnyFrom(lk.X, eng.Plain, func(v ssa.Value) bool { return eng.IsFieldLoad(v, m.mapT, m.mapField) }) {
+				lookups = append(lookups, lk)
+			}
+		}
+	}
+	if !c.Floor(rule, "map lookups in "+short(g), len(lookups), 1) {
+		return
+	}
+	fromLookup := func(v ssa.Value) bool {
+		ok, _ := p.AllFrom(v, eng.Plain, func(x ssa.Value) bool {
+			for _, lk := range lookups {
+				if x == ssa.Value(lk) {
+					return true
+				}
+				if ex, isEx := x.(*ssa.Extract); isEx && ex.Tuple == ssa.Value(lk) && ex.Index == 0 {
+					return true
+				}
+			}
+			return false
+		})
+		return ok
+	}
+	// edges on which the lookup is known to have found nothing: !ok of the comma-ok form, or value == nil
+	missEdges := eng.EdgeSet{}
+	for _, lk := range lookups {
+		if lk.CommaOk {
+			for _, r := range *lk.Referrers() {
+				if ex, isEx := r.(*ssa.Extract); isEx && ex.Index == 1 {
+					_, fe := eng.BoolEdges(g, func(v ssa.Value) bool { return v == ssa.Value(ex) })
+					for e := range fe {
+						missEdges[e] = true
+					}
+				}
+			}
+		}
+	}
+	ne, _ := p.NilEdges(g, fromLookup)
+	for e := range ne {
+		missEdges[e] = true
+	}
+	for i, r := range eng.Returns(g) {
+		if r.Block().Comment == "recover" || len(r.Results) == 0 {
+			continue
+		}
+		rv := r.Results[0]
+		ok := fromLookup(rv)
+		if !ok {
+			if cst, isC := rv.(*ssa.Const); isC && cst.IsNil() && len(missEdges) > 0 && eng.Cut(g, r.Block(), missEdges) {
+				ok = true
+			}
+		}
+		c.CheckAt(rule, fmt.Sprintf("%s:return#%d:returns-what-the-table-holds", short(g), i), r, ok, "the lookup can report \"no association\" although the table holds one under this key (or returns something else): a second association is then created under the same key and the teardown of the first deletes and closes the wrong one")
+	}
+}
+
 // C14.SOLEDELETER
 func ruleSoleDeleter(c *Ctx) {
 	p := c.P
@@ -532,6 +602,13 @@ func ruleMonotone(c *Ctx) {
 				}
 				fromWrite := c.P.Reach(c.L(), m.connWrite)[f]
 				c.CheckAt("MONOTONE", key+":immediate-expiry", call, inOnce && !fromWrite, "an immediate deadline (time.Now()) is set outside the one-shot fast-close latch or on the write path: the association's deadline can move earlier")
+				// ... and only for a datagram whose source is classified as DNS ("the first response from a DNS server"): cut by
+				// the true edge of the port-53 classifier applied to something derived from the read's source address
+				if cls := dnsClassifier(c); cls != nil {
+					gd := c.BoolGuard(func(cc *ssa.Call) bool { return callTo(c, cc, cls) }, true)
+					ed := gd.Edges(f)
+					c.CheckAt("MONOTONE", key+":immediate-expiry-only-for-a-DNS-source", call, len(ed) > 0 && eng.Cut(f, call.Block(), ed), "the fast close is not conditional on the datagram's source being a DNS server: any inbound datagram after a single DNS query closes the association at once, 17 s before the promised deadline")
+				}
 				continue
 			}
 			isAfter := func(x ssa.Value) bool {
@@ -645,6 +722,25 @@ func ruleShutdown(c *Ctx) {
 		}
 	}
 	c.Check("SHUTDOWN", short(cl)+":expires-every-entry", p.Pos(cl.Pos()), okLoop, "the table's Close does not range over the table setting a read deadline on each entry")
+}
+
+// dnsClassifier: the function of package service that classifies an address as DNS by comparing its port with "53".
+func dnsClassifier(c *Ctx) *ssa.Function {
+	for _, f := range c.P.FnsIn("service") {
+		if f.Signature.Results().Len() != 1 || f.Signature.Results().At(0).Type().String() != "bool" || f.Signature.Params().Len() != 1 {
+			continue
+		}
+		for _, b := range f.Blocks {
+			for _, ins := range b.Instrs {
+				if bo, ok := ins.(*ssa.BinOp); ok && bo.Op == token.EQL {
+					if s, ok := eng.ConstString(bo.Y); ok && s == "53" {
+						return f
+					}
+				}
+			}
+		}
+	}
+	return nil
 }
 
 // C14.DNS
